@@ -143,7 +143,7 @@ package taskctl
 //@ func (*TaskRunner).execute
 //@   requires [nonnil] r != nil && t != nil
 //@   ensures  [C08.announced] (t.End == old(t.End) || $toldEnd[t] == t.End) && (t.Errored == old(t.Errored) || $toldErrored[t] == t.Errored) && (t.ExitCode == old(t.ExitCode) || $toldExit[t] == t.ExitCode)
-//@   ensures  [C15.taskEnd] res == nil ==> t.End >= t.Start
+//@   ensures  [C15.taskEnd] (res == nil ==> t.End >= t.Start) && (t.End != old(t.End) ==> t.End >= t.Start)
 //@   loop 1 invariant [announced] t.End == old(t.End) && (t.ExitCode == old(t.ExitCode) || $toldExit[t] == t.ExitCode) && t.Start <= $clock
 //@   ensures  [C08.errorVerdict] t.Errored && !old(t.Errored) ==> res != nil && t.Error == res
 //@   ensures  [C08.successVerdict] res == nil ==> t.Errored == old(t.Errored) && t.Error == old(t.Error)
